@@ -227,7 +227,7 @@ prop('C15',
 
 prop('C17',
      modules=['WitnessVerif.Props.C17'],
-     scenarios=lambda tier: [sc('config'), sc('cfgmap'), sc('lib')],
+     scenarios=lambda tier: [sc('config'), sc('cfgmap'), sc('lib'), sc('omni')],
      diverge={'CF': None, 'CFM': None, 'CA': None},
      nontrivial_line=lambda k, line: k in ('CF', 'CFM'),
      rule='every entry of the embedded omniwitness/logs.yaml and of omniwitness/logs_test.yaml (working tree) is loaded through yaml.Unmarshal, config.NewLog, LogConfig.AsLogMap and its feeder is started for one cycle without network (start-up errors before the first request are failures); compared with the model; synthetic configurations (valid, ECDSA, malformed keys, duplicates) validate the model of NewVerifier/AsLogMap; the Lean tables are regenerated from the YAML files on every run and the coherence theorem is re-checked by kernel evaluation',
@@ -265,3 +265,11 @@ prop('C06',
      rule='for first-use, growth and refresh updates on a file-backed SQLite store opened through a wrapping database/sql driver (production pool size), a child process SIGKILLs itself at every driver-event boundary (entry and completion of begin, query, rows.Next, exec, commit; plus one run to completion); acknowledgements are flushed to a pipe before anything else; a fresh process reopens the file and reports every log\'s checkpoint (verified under log and witness keys) and the log list; compared with the model\'s prediction for that kill point; non-trivial = the process was killed',
      assumptions=['SQLite journal/fsync behaviour is trusted; SIGKILL does not model power loss'],
      exhaustive=True)
+
+prop('C14',
+     modules=['WitnessVerif.Props.C14'],
+     scenarios=lambda tier: [sc('omni'), sc('tiles')],
+     diverge={'TF': None, 'TP': None},
+     nontrivial_line=lambda k, line: k in ('OM', 'OMF', 'TL'),
+     rule='omniwitness.Main in-process with ConfigLogs set to a generated configuration of three logs sharing one key (one sumdb-type, two tlog-tiles-type) served by in-memory stub log servers (custom http.Transport), FeedInterval 40 ms, HTTP API on a local listener; growth schedules crossing 255/256/257 and 512/513 (thorough: 65535/65536/65537), in-memory storage (same object across restarts) and file-backed SQLite (reopened), the service restarted after every step; after each growth GET /witness/v0/logs/<id>/checkpoint must serve the published size and root, cosigned, within 60 poll intervals; then a fork of one log (diverging below the witnessed size), with and without restart: the served checkpoint must stay; plus the long-running SumDB feeder of the tiles scenario',
+     assumptions=['liveness bound (poll intervals) and goroutine wiring are runtime observations'])
